@@ -526,6 +526,8 @@ func (e *Engine) headerFor(fe *FuncEnc, base string) string {
 		reveal = fe.con.Reveal
 	}
 	key := strings.Join(reveal, ",")
+	headerMu.Lock()
+	defer headerMu.Unlock()
 	if h, ok := e.headerCache[key]; ok {
 		return h
 	}
@@ -539,6 +541,8 @@ func (e *Engine) headerFor(fe *FuncEnc, base string) string {
 	e.headerCache[key] = h
 	return h
 }
+
+var headerMu sync.Mutex
 
 func makeOpaque(h, name string) string {
 	marker := "(define-fun " + name + " ("
